@@ -83,6 +83,30 @@ fn main() {
             checks::replay(&doc)
         }
         "selfcheck" => checks::selfcheck(seed, n_opt.unwrap_or(64)),
+        "dump" => {
+            // debugging aid: print the recorded history of the chain configuration inside a replay file
+            let file = pos.first().unwrap_or_else(|| harness_error("dump <file>"));
+            let text = std::fs::read_to_string(file).unwrap_or_else(|e| harness_error(&format!("cannot read {file}: {e}")));
+            let doc: serde_json::Value = serde_json::from_str(&text).unwrap_or_else(|e| harness_error(&format!("bad replay file: {e}")));
+            let mut cfg: chain::ChainCfg = serde_json::from_value(doc["scenario"]["cfg"].clone()).unwrap_or_else(|e| harness_error(&format!("no chain cfg in scenario: {e}")));
+            cfg.keep_evals = true;
+            cfg.observe_math = true;
+            let h = chain::run_chain(&cfg);
+            println!("new_chain {:?} set_position {:?} evals {:?}", h.new_chain, h.set_position, h.set_position_evals);
+            for e in &h.evals {
+                println!("  eval {} pos {:?} logp {:e} fault {:?} err {}", e.index, e.pos, e.logp, e.fault, e.returned_err);
+            }
+            for (i, d) in h.draws.iter().enumerate() {
+                println!("draw {i}: evals {:?} pos {:?} div {} steps {} step_size {:e} tap {}", d.evals, d.pos, d.progress.diverging, d.progress.num_steps, d.progress.step_size, d.tap.len());
+                for (n, v) in &d.stats {
+                    if let Some(v) = v {
+                        println!("      {n} = {:?}", v);
+                    }
+                }
+            }
+            println!("failed {:?}", h.failed_call);
+            0
+        }
         other => harness_error(&format!("unknown command {other}")),
     };
     std::process::exit(code);
